@@ -57,17 +57,40 @@ Proof.
     intros q Hq. apply filter_In in Hq. apply Hq.
 Qed.
 
-Lemma table_wf c ns rs : wf_round rs = true -> tbl_wf c (table c ns rs).
+Lemma pool_nodes_props fxp c processed ns rs :
+  NoDup (map mid (pool_nodes fxp c processed ns rs)) /\
+  forall m, In m (pool_nodes fxp c processed ns rs) ->
+    In (mid m, mstat m, mrnd m) (number 1 ns rs) /\ In (mrnd m) rs /\
+    in_pool fxp c processed (mid m) (mstat m) = true.
 Proof.
-  intros Hwf. unfold table.
-  destruct (number_props ns rs 1) as [Hnd Hin].
-  apply rows_wf.
-  - unfold fresh_nodes, pool_nodes. apply NoDup_map_filter. rewrite map_map. cbn [mid].
-    apply NoDup_map_filter. exact Hnd.
-  - intros m Hm. unfold fresh_nodes, pool_nodes in Hm. apply filter_In in Hm. destruct Hm as [Hm _].
-    apply in_map_iff in Hm. destruct Hm as [t [<- Ht]]. apply filter_In in Ht. destruct Ht as [Ht _].
-    cbn [mrnd]. unfold wf_round in Hwf. rewrite forallb_forall in Hwf.
-    apply Hwf. apply Hin. exact Ht.
+  destruct (number_props ns rs 1) as [Hnd Hin]. unfold pool_nodes. split.
+  - rewrite map_map. cbn [mid]. apply NoDup_map_filter. exact Hnd.
+  - intros m Hm. apply in_map_iff in Hm. destruct Hm as [t [<- Ht]]. apply filter_In in Ht.
+    destruct Ht as [Ht Hp]. cbn [mid mstat mrnd]. destruct t as [[i a] b]. cbn [fst snd] in *.
+    split; [exact Ht|]. split; [apply (Hin _ Ht)|exact Hp].
+Qed.
+
+Lemma table_of_wf c pool :
+  NoDup (map mid pool) -> (forall m, In m pool -> wf_nround (mrnd m) = true) -> tbl_wf c (table_of c pool).
+Proof.
+  intros Hnd Hwf. unfold table_of. apply rows_wf.
+  - unfold fresh_nodes. apply NoDup_map_filter. exact Hnd.
+  - intros m Hm. unfold fresh_nodes in Hm. apply filter_In in Hm. apply Hwf. apply Hm.
+Qed.
+
+Lemma table_wf fxp c processed ns rs :
+  wf_round rs = true -> tbl_wf c (table_of c (pool_nodes fxp c processed ns rs)).
+Proof.
+  intros Hwf. destruct (pool_nodes_props fxp c processed ns rs) as [Hnd Hin].
+  apply table_of_wf; [exact Hnd|]. intros m Hm. unfold wf_round in Hwf. rewrite forallb_forall in Hwf.
+  apply Hwf. apply (Hin m Hm).
+Qed.
+
+(* the table's nodes are nodes of the pool *)
+Lemma table_of_ids c pool r : In r (table_of c pool) -> In (rid r) (map mid pool).
+Proof.
+  unfold table_of. intros H. apply in_map_iff in H. destruct H as [m [<- Hm]].
+  rewrite rid_mk_row. unfold fresh_nodes in Hm. apply filter_In in Hm. apply in_map. apply Hm.
 Qed.
 
 Lemma tbl_wf_dims c tbl : tbl_wf c tbl -> tbl_dims (dims c) tbl.
@@ -104,7 +127,7 @@ Qed.
 
 Lemma round_holds_nil c tbl psize : round_holds c tbl psize [].
 Proof.
-  unfold round_holds. split; [reflexivity|]. split; [reflexivity|]. split; [intros e []|].
+  unfold round_holds, round_holds_from. split; [reflexivity|]. split; [reflexivity|]. split; [intros e []|].
   cbn [filter]. eexists. eexists. split; constructor.
 Qed.
 
@@ -271,7 +294,7 @@ Proof.
   - pose proof (efs_round c tbl Hwf abn' pabn' (dn', dp') Hd Habn Hpabn) as H.
     destruct (evict_from_sources c tbl abn' pabn' (dn', dp')) as [evs [dn2 dp2]].
     cbn zeta in H. cbn [fst] in *. destruct H as [H1 H2].
-    unfold round_holds. split; [intros Hx; rewrite Hd in Hx; discriminate|].
+    unfold round_holds, round_holds_from. split; [intros Hx; rewrite Hd in Hx; discriminate|].
     split.
     + intros Hn. exfalso. eapply nothing_cond_exits; eauto.
     + split; [|exact H2]. intros e He. destruct (H1 e He) as [[H _]|[H _]]; [left|right]; exact H.
